@@ -156,6 +156,42 @@ class Snapshot:
             return out
 
 
+    # in-process parts of the harness that call the repository's API directly, one file per property
+    LEAF = {"C11": "c11inproc", "C15": "c15", "C16": "c16", "C18": "c18"}
+    TAG = {"c11inproc": "noc11", "c15": "noc15", "c16": "noc16", "c18": "noc18"}
+    HAS_CLI_PART = {"C11"}
+    degraded = ""
+
+    def build_harness(self, prop):
+        """The harness binary for one property. When the full harness no longer compiles because an API that
+        *another* property's in-process part calls has changed, that part is left out (build tag no<file>), so
+        that one refactoring does not take the correspondence of every property down with it."""
+        exe = self.build("verifh")
+        if exe is not None:
+            return exe
+        err = self.build_errors.get("verifh", "")
+        broken = sorted({m.group(1) for m in re.finditer(r"internal/verifh/(c\d\d[a-z]*)\.go:", err)})
+        if not broken or not all(b in self.LEAF.values() for b in broken):
+            return None
+        if self.LEAF.get(prop) in broken:
+            if prop not in self.HAS_CLI_PART:
+                return None
+            # the property's own in-process part is gone; its CLI cases still run. The tie is broken all the same.
+            self.degraded = "the in-process part of the harness of " + prop + " no longer compiles against the repository:\n" + err[-1500:]
+        what = "verifh-" + "-".join(self.TAG[b] for b in broken)
+        out = os.path.join(self.bin, what)
+        with Lock("build-" + self.hash):
+            if os.path.exists(out):
+                return out
+            tags = "verif," + ",".join(self.TAG[b] for b in broken)
+            p = sh(["go", "build", "-tags", tags, "-o", out, "./internal/verifh"], cwd=self.src, env=goenv())
+            if p.returncode != 0:
+                self.build_errors["verifh"] = err + "\n(also without " + ", ".join(broken) + ")\n" + p.stderr[-3000:]
+                return None
+        log("harness built without the in-process parts of", ", ".join(broken), "(they no longer compile against the repository)")
+        return out
+
+
 # --------------------------------------------------------------------------
 # Lean: regenerated facts, build, audit
 
